@@ -1,7 +1,7 @@
 #!/bin/bash
 # tools/confirm3_all.sh <ID>...  — confirm A then B of each worktree /tmp/mut3-<ID>, worktrees in parallel
 for id in "$@"; do
-  ( cd /tmp/mut3-$id && git checkout -q -- . && git clean -fdq -e _out
-    for L in A B; do /verif/tools/confirm3.sh /tmp/mut3-$id $L > /tmp/confirm-$id-$L.txt 2>&1; done ) &
+  ( cd /tmp/mut${ROUND:-3}-$id && git checkout -q -- . && git clean -fdq -e _out
+    for L in A B; do /verif/tools/confirm3.sh /tmp/mut${ROUND:-3}-$id $L > /tmp/confirm-$id-$L.txt 2>&1; done ) &
 done
 wait
